@@ -635,6 +635,7 @@ def body(ctx, root):
     ctx.sample({"printed script sizes": {s: len(printed[s] or b"") for s in SHELLS}})
 
     # ---- the cases
+    file_size_limit_probe(ctx, root, printed)
     cases = gen_cases(ctx, printed)
     results = lib.pmap(lambda c: execute(ctx, root, c), cases)
     midx = [i for i, c in enumerate(cases) if c["kind"] != "fault"]
@@ -691,6 +692,66 @@ def body(ctx, root):
     k = next((i for i, c in enumerate(cases) if c["kind"] == "malformed"), 0)
     ctx.sample({"argv": ["imdl"] + results[k]["argv"], "rc": results[k]["rc"], "model": replies[k][:80]})
     return finish(ctx)
+
+
+def file_size_limit_probe(ctx, root, printed):
+    """A write fault at every distance from the end of the file, the last byte included: RLIMIT_FSIZE = size of the script minus
+    1, 2, 9, half, 0 (SIGXFSZ ignored, so the write fails with EFBIG), and exactly the size (no fault). Whenever imdl exits 0 the
+    file is byte-identical to the printed script; a fault is a reported failure. (Added after seeded change C19-13: the final line
+    feed went through a BufWriter that was never flushed - dropped with its error - so a fault on the last byte was silent.)"""
+    import resource, signal, subprocess
+    env = dict(lib.noise_env(), PATH=os.environ.get("PATH", ""), RUST_BACKTRACE="0", **ENV0)
+    jobs = []
+    for s in SHELLS:
+        if printed.get(s) is None:
+            continue
+        n = len(printed[s])
+        for lim in (n - 1, n - 2, n - 9, n // 2, 0, n):
+            for form in (["--dir", "out", "--shell", s], ["--dir", "out", s]) if lim in (n - 1, n) else (["--dir", "out", "--shell", s],):
+                jobs.append((s, lim, form))
+    smallest = min((len(v) for v in printed.values() if v), default=0)
+    if smallest:
+        jobs.append((None, smallest - 1, ["--dir", "out"]))          # all five: at least the larger scripts hit the limit
+
+    def one(job):
+        s, lim, form = job
+        d = tempfile.mkdtemp(dir=root)
+        os.makedirs(os.path.join(d, "out"))
+
+        def pre():
+            signal.signal(signal.SIGXFSZ, signal.SIG_IGN)
+            resource.setrlimit(resource.RLIMIT_FSIZE, (lim, lim))
+        p = subprocess.run([ctx.bins["imdl"], "completions"] + form, cwd=d, env=env, stdin=subprocess.DEVNULL, stdout=subprocess.PIPE,
+                           stderr=subprocess.PIPE, timeout=60, preexec_fn=pre)
+        files = {}
+        for fn in sorted(os.listdir(os.path.join(d, "out"))):
+            with open(os.path.join(d, "out", fn), "rb") as f:
+                files[fn] = f.read()
+        shutil.rmtree(d, ignore_errors=True)
+        return job, p.returncode, p.stderr, files
+    for (s, lim, form), rc, err, files in lib.pmap(one, jobs):
+        ctx.cov["evaluations"] += 1
+        ctx.count("file_size_limit_runs")
+        ctx.distinct(("fsize", s, lim - len(printed[s]) if s else "all", tuple(form)))
+        want = {DOCNAME[s]: printed[s]} if s else {DOCNAME[x]: printed[x] for x in SHELLS if printed.get(x)}
+        bad = []
+        fits = all(len(v) <= lim for v in want.values())
+        if rc == 0 and files != want:
+            bad.append("exit status 0 but the files are not the printed scripts: %s" % {k: len(v) for k, v in files.items()})
+        if fits and rc != 0:
+            bad.append("exit status %d although every script fits the limit" % rc)
+        if not fits and rc == 0:
+            bad.append("exit status 0 although a script does not fit the file size limit")
+        if rc not in (0, 1):
+            bad.append("exit status %d" % rc)
+        if bad:
+            ctx.violation("oracle-failure", "`imdl completions %s` with the file size limited to %d bytes (%s script: %s bytes): %s"
+                          % (" ".join(form), lim, s or "smallest", len(printed[s]) if s else "-", "; ".join(bad)),
+                          {"argv": ["imdl", "completions"] + form, "rc": rc, "stderr": err[-300:].decode("utf-8", "replace"),
+                           "files": {k: len(v) for k, v in files.items()},
+                           "reproduce": "mkdir out; python3 -c 'import resource,signal,os,sys; signal.signal(signal.SIGXFSZ,signal.SIG_IGN); "
+                                        "resource.setrlimit(resource.RLIMIT_FSIZE,(%d,%d)); os.execvp(\"imdl\",[\"imdl\",\"completions\"]+sys.argv[1:])' %s; echo $?"
+                                        % (lim, lim, " ".join(form))})
 
 
 def finish(ctx):
